@@ -78,6 +78,10 @@ def r2_r3(ctx):
             it = Interp(ctx)
             it.summaries["helpers._choose_dialect"] = lambda i, pos, kw, node: (i.trace.events.append(("vote", pos[0], node)), Opaque("VOTED", "dialect"))[1]
             it.summaries["iterators._BaseIterator._custom_iter"] = lambda i, pos, kw, node: Opaque("items", "iter")
+            for q_ in ctx.proj.funcs:
+                if q_.startswith("iterators.") and q_.endswith(".peek"):
+                    # wherever peek is defined: its own behaviour is judged separately (window rule, C13.R2)
+                    it.summaries[q_] = lambda i, pos, kw, node: (i.trace.events.append(("call-opaque", None, "peek", list(pos), kw, node)), Opaque("self.peek()", "obj"))[1]
             so = Opaque("self", "obj")
             try:
                 traces = it.run(init, {pnames[0]: Sym("data", "any", True), "checklines": Sym("n", "int", True), "force_dialect_check": force, "dialect": dia}, self_obj=so)
@@ -159,15 +163,13 @@ def r2_r3(ctx):
             di = [e for e in t.events if e[0] == "dataiterator"]
             ctx.ob("R3", bool(di) and di[0][1] == given, "the iterator is built with the caller's dialect (None lets it infer)", func=cd,
                    sig="%s: DataIterator(dialect=%s)" % (label, "caller's" if di and di[0][1] is not None and di[0][1] == given else di[0][1] if di else "?"), nontrivial=False)
+    # which dialect the lines of a file are parsed with: one pass of the file iterator over two feature lines, evaluated
+    from .c14 import _run_file, FEATURE_LINE
     fi = require_func(ctx, "iterators._FileIterator._custom_iter")
-    from ..flow import Flow
-    from ..util import closure
-    pool = closure(ctx, fi)
-    fl = Flow(ctx, pool, rows=False)
-    calls_ = [(g, c) for g in pool for c in calls_in(g.node) if (is_name(c.func, "feature_from_line") or call_attr(c) == "feature_from_line")]
-    ok = bool(calls_) and all(kwarg(c, "dialect") is not None and fl.terms(kwarg(c, "dialect"), g) == {("attr", ("self",), "dialect")} for g, c in calls_)
+    _ys, _dirs, seen, _stream, _t = _run_file(ctx, [FEATURE_LINE % "a" + "\n", FEATURE_LINE % "b" + "\n"])
+    ok = len(seen) == 2 and all(getattr(d, "name", None) == "DIALECT" for _l, d in seen)
     ctx.ob("R3", ok, "lines are parsed with the iterator's dialect (None while peeking, so each line is inferred)", func=fi,
-           sig="feature_from_line(dialect=self.dialect)" if ok else "feature_from_line called with another dialect")
+           sig="feature_from_line(dialect=self.dialect)" if ok else "feature_from_line called with another dialect: %s" % [getattr(d, "name", repr(d)) for _l, d in seen])
 
 
 def r5(ctx):
@@ -268,6 +270,37 @@ def r6(ctx):
     ctx.floor("R6", n, 3, "stores into dictionaries in the attribute parser")
 
 
+def r_window(ctx):
+    """The inspected window: every peek implementation, evaluated on a source longer than the window, returns the same
+    number of items for the same `checklines` (sibling agreement: the vote must not depend on how the data is supplied)."""
+    from ..absint import Opaque, StreamVal
+    from .c13 import _run
+    base = ctx.proj.cls("iterators._BaseIterator")
+    impls = []
+    for c in ctx.proj.subclasses(base):
+        m = ctx.proj.method(c, "peek")
+        if m is not None and not all(isinstance(st, (ast.Raise, ast.Expr, ast.Pass)) for st in m.node.body):
+            impls.append((c, m))
+    ctx.floor("R3", len(impls), 2, "iterator classes with a peek")
+    sizes = {}
+    for c, m in impls:
+        n_param = [p for p in m.params if p != "self"][0]
+        for n in (1, 2, 5):
+            for label, mk in (("one-shot stream", lambda xs: StreamVal(xs, "data")), ("list", lambda xs: list(xs))):
+                xs = [Opaque("x%d" % i, "Feature") for i in range(n + 4)]
+                so = Opaque("self", c.name)      # the run-time class: template methods dispatch through it
+                so.attrs["data"] = mk(xs)
+                fresh = lambda i, pos, kw, node, xs=xs: StreamVal(xs, "file pass")
+                traces = _run(ctx, m, {n_param: n}, self_obj=so, summaries={"iterators._FileIterator._custom_iter": fresh, "iterators._BaseIterator._custom_iter": fresh})
+                for t in traces:
+                    got = t.result[1] if t.result[0] == "return" else None
+                    sizes.setdefault(n, {}).setdefault(len(got) if isinstance(got, (list, tuple)) else "not a list", []).append("%s.peek on a %s" % (c.name, label))
+    for n, by in sorted(sizes.items()):
+        ctx.ob("R3", len(by) == 1, "peek(%d) inspects the same number of items however the data is supplied (%d implementations x stream/list)" % (n, len(impls)),
+               func=impls[0][1], sig="peek(%d): window size %s" % (n, sorted(by, key=str)[0]) if len(by) == 1 else
+               "peek(%d): window sizes differ: %s" % (n, {k: sorted(set(v))[:2] for k, v in by.items()}))
+
+
 def check(ctx):
     ctx.explanation = (
         "The vote (_choose_dialect) is evaluated abstractly on small symbolic peeks; the iterator's constructor and its common iteration path "
@@ -278,6 +311,7 @@ def check(ctx):
         "the full dictionary is recovered for every consistent input beyond the templates.")
     r1(ctx)
     r2_r3(ctx)
+    r_window(ctx)
     r5(ctx)
     r6(ctx)
     from .c03 import r5_format_routing
